@@ -13,6 +13,7 @@
 //          eq    r differs from the C library's result (same format; zeros of either sign and NaNs of any payload are equal)
 //          eqi   integer result differs from lrint/trunc of the argument (only when it fits)
 //          cvi   float result differs from (float)(int32)x / (float)(uint32)x
+//          dom   r is NaN where the C library's result is not, or the reverse (domain errors, C12)
 //          odd / even   f(-x) differs from -f(x) / f(x) bit for bit
 //          ticks score = largest iteration counter of the call (kind lp)
 //          term  no score; only a call that does not return within the watchdog period is reported
@@ -244,6 +245,8 @@ namespace sweep
                                     continue;
                                 s = ulp_score<float, double>(x, vd::ld<float>(o.bytes + 4 * i), ref->d((double)x), mode == "ulp1", 24, 1.17549435e-38f, 3.40282347e38f);
                             }
+                            else if (mode == "dom")
+                                s = std::isnan(vd::ld<float>(o.bytes + 4 * i)) != std::isnan(ref->d((double)x)) ? 1 : 0;
                             else if (mode == "eq")
                                 s = same_fp32(vd::ld<float>(o.bytes + 4 * i), ref->f(x)) ? 0 : 1;
                             else if (mode == "eqi")
@@ -313,6 +316,8 @@ namespace sweep
                                 continue;
                             s = ulp_score<double, long double>(x, vd::ld<double>(o.bytes + 8 * i), ref->ld((long double)x), mode == "ulp1", 53, 2.2250738585072014e-308, 1.7976931348623157e308);
                         }
+                        else if (mode == "dom")
+                            s = std::isnan(vd::ld<double>(o.bytes + 8 * i)) != std::isnan(ref->d(x)) ? 1 : 0;
                         else if (mode == "eq")
                         {
                             double r = vd::ld<double>(o.bytes + 8 * i), e = ref->d(x);
